@@ -7,7 +7,7 @@ from .base import BaseProp
 
 class Prop(BaseProp):
     id = "C19"
-    groups = ["CrashFacts", "CacheFacts", "ShardLayout"]
+    groups = ["CrashFacts", "CacheFacts", "ShardLayout", "HashConsts"]
     prop_file = "Props/C19.v"
     trusted_base = [
         "crash model: a prefix of the operation's file-system calls persists (completed calls persist, no torn or reordered page cache), as the property states; strace (ptrace) delivers SIGKILL at the entry of the chosen call",
